@@ -5,7 +5,7 @@ EXTENDS Naturals, Sequences, FiniteSets
 
 Rendered(b) == b \in {"render", "ignore_render", "mixed", "defer_only"}      \* the generator renders something for the package (defer_only: from its deferred callback alone)
 Blank(b)    == b = "blank"                                    \* ... renders white space only: whether that is "something" is left open
-Ignored(b)  == b \in {"ignore", "ignore_render"}               \* ... signals ErrIgnore for one of its types
+Ignored(b)  == b \in {"ignore", "ignore_render", "ignore_alias"}   \* ... signals ErrIgnore for one of its types (ignore_alias: for an alias, from GenerateAliasType)
 
 FixPkgs == {"p", "q", "r"}
 FixOrder == <<"p", "q", "r">>                                  \* sorted by import path, in every layout
